@@ -245,5 +245,145 @@ theorem RbInv.eraseBlock (h : RbInv addrs bm g s gi si) :
 /-- the pair of working states: same working balances, stores related -/
 def RbR (addrs : List Addr) (bm : BlockMeta) (g s : Store) (gb sb : Store × Bals) : Prop :=
   sb.2 = gb.2 ∧ RbInv addrs bm g s gb.1 sb.1
+local macro "mined_rfl" : term => `(⟨rfl, rfl, rfl, rfl, rfl, rfl, rfl, rfl, rfl, rfl, rfl⟩)
+
+-- ------------------------------------------------------------------ Rollback, function by function
+
+theorem rbInv_rollbackAddr (h : RbInv addrs bm g s gi si) (w : Wid) (o : Out) (ch : Nat) :
+    RbInv addrs bm g s (rollbackAddr gi w o ch) (rollbackAddr si w o ch) := by
+  unfold rollbackAddr
+  dsimp only
+  have e : AMap.get si.addrs (w, o.cls.isStaking, o.addr) = AMap.get gi.addrs (w, o.cls.isStaking, o.addr) := by
+    rw [h.adr]
+  rw [e]
+  cases AMap.get gi.addrs (w, o.cls.isStaking, o.addr) with
+  | none => exact h
+  | some x =>
+    dsimp only
+    split
+    · exact h.withAddrs (fun a => AMap.put a (w, o.cls.isStaking, o.addr) 0)
+    · exact h
+
+theorem rollbackOwnedOut_sim {id : TxId} {blk : BlockMeta} {i : Nat} {o : Out} {w : Wid} {gb sb gb' : Store × Bals}
+    (h : RbR addrs bm g s gb sb) (hg : rollbackOwnedOut id blk gb i o w = .ok gb') :
+    ∃ sb', rollbackOwnedOut id blk sb i o w = .ok sb' ∧ RbR addrs bm g s gb' sb' := by
+  obtain ⟨gi, bals⟩ := gb
+  obtain ⟨si, bals'⟩ := sb
+  obtain ⟨hb, h⟩ := h
+  dsimp only at hb h
+  subst hb
+  unfold rollbackOwnedOut at hg ⊢
+  dsimp only at hg ⊢
+  have e : AMap.get si.unspent (w, id, i) = AMap.get gi.unspent (w, id, i) := by rw [h.unspent]
+  rw [e]
+  split at hg
+  · rename_i hx
+    rw [if_pos hx]
+    split at hg
+    · cases hg
+    · rename_i hy
+      rw [if_neg hy]
+      cases hg
+      exact ⟨_, rfl, rfl, rbInv_rollbackAddr (h.withUnspent (fun u => AMap.erase u (w, id, i))) _ _ _⟩
+  · rename_i hx
+    rw [if_neg hx]
+    cases hg
+    exact ⟨_, rfl, rfl, rbInv_rollbackAddr h _ _ _⟩
+
+theorem rollbackCbOut_sim {c : Ctx} {id : TxId} {i : Nat} {o : Out} {ga sa ga' : (Store × Bals) × List (TxId × Nat)}
+    (h : RbR addrs bm g s ga.1 sa.1) (hg : rollbackCbOut c id bm ga i o = .ok ga') :
+    ∃ sa', rollbackCbOut c id bm sa i o = .ok sa' ∧ RbR addrs bm g s ga'.1 sa'.1 := by
+  obtain ⟨⟨gi, bals⟩, gl⟩ := ga
+  obtain ⟨⟨si, bals'⟩, sl⟩ := sa
+  obtain ⟨hb, h⟩ := h
+  dsimp only at hb h
+  subst hb
+  unfold rollbackCbOut at hg ⊢
+  dsimp only at hg ⊢
+  rw [h.cred.new ⟨id, bm, i⟩ rfl]
+  cases hc : AMap.get gi.credits ⟨id, bm, i⟩ with
+  | none => rw [hc] at hg; cases hg; exact ⟨_, rfl, rfl, h⟩
+  | some cr =>
+    rw [hc] at hg
+    dsimp only at hg ⊢
+    split at hg
+    · cases hg
+    rename_i hraw
+    rw [if_neg hraw]
+    have h1 := h.eraseCredit (k := ⟨id, bm, i⟩) rfl
+    cases ho : AMap.get c.own o.addr with
+    | none => rw [ho] at hg; cases hg; exact ⟨_, rfl, rfl, h1⟩
+    | some wc =>
+      obtain ⟨w, ch⟩ := wc
+      rw [ho] at hg
+      dsimp only at hg ⊢
+      obtain ⟨gb1, h2, h3⟩ := M_bind_ok hg
+      obtain ⟨sb1, hs2, hR⟩ := rollbackOwnedOut_sim
+        (gb := ({ gi with credits := AMap.erase gi.credits ⟨id, bm, i⟩ }, bals'))
+        (sb := ({ si with credits := AMap.erase si.credits ⟨id, bm, i⟩ }, bals')) ⟨rfl, h1⟩ h2
+      rw [hs2]
+      simp only [M_ok_bind]
+      split at h3
+      · rename_i hgm
+        rw [if_pos hgm]
+        cases h3
+        exact ⟨_, rfl, hR.1, hR.2.withGame (fun m => AMap.erase m ⟨w, o.cls.isBinding, false, id, bm.height, i⟩)⟩
+      · rename_i hgm
+        rw [if_neg hgm]
+        cases h3
+        exact ⟨_, rfl, hR⟩
+
+theorem rollbackOut_sim {c : Ctx} {id : TxId} {i : Nat} {o : Out} {gb sb gb' : Store × Bals}
+    (h : RbR addrs bm g s gb sb) (hg : rollbackOut c id bm gb i o = .ok gb') :
+    ∃ sb', rollbackOut c id bm sb i o = .ok sb' ∧ RbR addrs bm g s gb' sb' := by
+  obtain ⟨gi, bals⟩ := gb
+  obtain ⟨si, bals'⟩ := sb
+  obtain ⟨hb, h⟩ := h
+  dsimp only at hb h
+  subst hb
+  unfold rollbackOut at hg ⊢
+  dsimp only at hg ⊢
+  rw [h.cred.new ⟨id, bm, i⟩ rfl]
+  cases hc : AMap.get gi.credits ⟨id, bm, i⟩ with
+  | none => rw [hc] at hg; cases hg; exact ⟨_, rfl, rfl, h⟩
+  | some cr =>
+    rw [hc] at hg
+    dsimp only at hg ⊢
+    split at hg
+    · cases hg
+    rename_i hraw
+    rw [if_neg hraw]
+    have h1 : RbInv addrs bm g s
+        { gi with credits := AMap.erase gi.credits ⟨id, bm, i⟩,
+                  pendCred := AMap.put gi.pendCred (id, i) { cr with spentBy := none } }
+        { si with credits := AMap.erase si.credits ⟨id, bm, i⟩,
+                  pendCred := AMap.put si.pendCred (id, i) { cr with spentBy := none } } :=
+      (h.eraseCredit (k := ⟨id, bm, i⟩) rfl).minedEq mined_rfl mined_rfl
+    cases ho : AMap.get c.own o.addr with
+    | none => rw [ho] at hg; cases hg; exact ⟨_, rfl, rfl, h1⟩
+    | some wc =>
+      obtain ⟨w, ch⟩ := wc
+      rw [ho] at hg
+      dsimp only at hg ⊢
+      obtain ⟨gb1, h2, h3⟩ := M_bind_ok hg
+      obtain ⟨sb1, hs2, hR⟩ := rollbackOwnedOut_sim
+        (gb := ({ gi with credits := AMap.erase gi.credits ⟨id, bm, i⟩,
+                          pendCred := AMap.put gi.pendCred (id, i) { cr with spentBy := none } }, bals'))
+        (sb := ({ si with credits := AMap.erase si.credits ⟨id, bm, i⟩,
+                          pendCred := AMap.put si.pendCred (id, i) { cr with spentBy := none } }, bals'))
+        ⟨rfl, h1⟩ h2
+      rw [hs2]
+      simp only [M_ok_bind]
+      split at h3
+      · rename_i hgm
+        rw [if_pos hgm]
+        cases h3
+        refine ⟨_, rfl, hR.1, ?_⟩
+        exact (hR.2.withGame (fun m => AMap.erase m ⟨w, o.cls.isBinding, false, id, bm.height, i⟩)).minedEq
+          mined_rfl mined_rfl
+      · rename_i hgm
+        rw [if_neg hgm]
+        cases h3
+        exact ⟨_, rfl, hR⟩
 
 end MW.Lemmas.RemoveSim
